@@ -40,9 +40,25 @@ class Pool:
         self.w0 = (Q(w0[0]), Q(w0[1]))
         self.name = name
 
-    def frame(self, row_ids, float_ticks=False):
-        idx = pd.date_range(minute(0), periods=len(row_ids), freq="1min")
-        rs = [self.rows[i - 1] for i in row_ids]
+    def frame(self, row_ids, float_ticks=False, F=1):
+        """F > 1: every bar of the behaviour is supplied as F one-minute rows (the run then resamples to F-minute bars): ticks wander
+        inside the bar and close at the bar's close, volumes are split over the rows, the pool liquidity of the bar is the LAST
+        row's (other rows carry another value) - the aggregation rules of demeter/uniswap/data.py (last / first / sum) must
+        reproduce the bar the specification talks about."""
+        if F > 1:
+            rs = []
+            for i in row_ids:
+                r = self.rows[i - 1]
+                for j in range(F):
+                    last = j == F - 1
+                    wob = 0 if last else (3 if j % 2 == 0 else -2)
+                    rs.append(dict(open=r["open"] if j == 0 else r["close"] + (3 if (j - 1) % 2 == 0 else -2), close=r["close"] + wob,
+                                   liq=r["liq"] if last else r["liq"] * 2 + 7,
+                                   in0=r["in0"] // F + (r["in0"] % F if j == 0 else 0), in1=r["in1"] // F + (r["in1"] % F if j == 1 % F else 0)))
+            idx = pd.date_range(minute(0), periods=len(rs), freq="1min")
+        else:
+            idx = pd.date_range(minute(0), periods=len(row_ids), freq="1min")
+            rs = [self.rows[i - 1] for i in row_ids]
         conv = float if float_ticks else int
         df = pd.DataFrame(index=idx, data={
             "netAmount0": [0] * len(rs), "netAmount1": [0] * len(rs),
@@ -67,7 +83,7 @@ def project(market, pool: Pool, broker):
     return {"w": (frac(broker.get_token_balance(pool.t0)), frac(broker.get_token_balance(pool.t1))), "pos": pos}
 
 
-def run_behaviour(pool: Pool, scn, events, row0, float_ticks=False, est_ranges=None):
+def run_behaviour(pool: Pool, scn, events, row0, float_ticks=False, est_ranges=None, F=1):
     """Execute through the real Actuator.  Returns list of records, one per event:
     dict(out, exc, ret, proj, nv) for operations; dict(proj, nv) for endbar; plus a possible run-level error."""
     bars = [[]]
@@ -78,8 +94,10 @@ def run_behaviour(pool: Pool, scn, events, row0, float_ticks=False, est_ranges=N
             rows.append(ev["next"])
         else:
             bars[-1].append(ev)
-    df = pool.frame(rows, float_ticks)
+    df = pool.frame(rows, float_ticks, F)
     act = Actuator()
+    if F > 1:
+        act.interval = f"{F}min"
     market = UniLpMarket(MarketInfo("uni"), pool.pool)
     market.data = df
     act.broker.add_market(market)
